@@ -18,7 +18,7 @@ ASSUMPTIONS = ["network outputs (float32) of the real Q / critic modules are inp
 
 def units(tier):
     return [{"name": n, "timeout": 2400} for n in ("dqn_loss", "dqn_grad", "dqn_train", "sac_target", "sac_updates",
-                                                     "sac_iteration")]
+                                                     "sac_iteration", "dqn_stateful")]
 
 
 def _flags(rng, N):
@@ -319,7 +319,17 @@ def _sac_setup(ctx, i, real_policy=False):
     from lerax.policy import MLPSACPolicy
 
     cfgs = _sac_cfgs(ctx)
-    cfg = cfgs[i % len(cfgs)]
+    # consecutive cases share a configuration (one compiled program), and the compiled programs of the
+    # previous configuration are dropped when the configuration changes: thousands of live XLA executables
+    # exhaust the process's memory mappings (observed: "LLVM ERROR: Unable to allocate section memory")
+    reps = max(1, ctx.n(5, 8))
+    ci = (i // reps) % len(cfgs)
+    if _CFG.get("last") not in (None, ci):
+        import jax
+
+        jax.clear_caches()
+    _CFG["last"] = ci
+    cfg = cfgs[ci]
     env, N, cap, bs, gamma, pf = cfg["env"], cfg["N"], cfg["cap"], cfg["bs"], cfg["gamma"], cfg["pf"]
     if real_policy and gamma == 0.0:
         cfg = next(c for c in cfgs if c["gamma"] > 0)
@@ -540,6 +550,72 @@ def u_sac_updates(ctx):
     ctx.require("actor_vs_skip_pairs", 2)
 
 
+def u_dqn_stateful(ctx):
+    """Double-DQN target with a *stateful* Q policy: the online value of the taken action uses the stored
+    acting policy state, the greedy next action and the target value use the stored next policy state."""
+    import equinox as eqx
+    import jax
+    import jax.numpy as jnp
+    from jax import random as jr
+    from lerax.algorithm import DQN
+    from lerax.buffer import ReplayBuffer
+    from lerax.utils import filter_scan
+    from vlib.common import digest
+    from vlib.stubs import CountingQPolicy, CountState
+
+    lossfn = eqx.filter_jit(DQN.dqn_loss)
+
+    def fill(buf, xs):
+        def body(b, x):
+            o, no, a, r, d, t, n0, n1 = x
+            return b.add(o, no, a, r, d, t, CountState(n0), CountState(n1)), None
+
+        return filter_scan(body, buf, xs)[0]
+
+    fill = eqx.filter_jit(fill)
+    for i in range(ctx.n(20, 150)):
+        env = _denv(ctx)
+        nS, nA = env.nS, env.nA
+        N = 16
+        k1, k2, k3 = jr.split(ctx.key(90_000 + i), 3)
+        s0 = ctx.rng.integers(0, nS, N)
+        s1 = ctx.rng.integers(0, nS, N)
+        obs = jnp.asarray(np.eye(nS, dtype=np.float32)[s0])
+        nobs = jnp.asarray(np.eye(nS, dtype=np.float32)[s1])
+        acts = jnp.asarray(ctx.rng.integers(0, nA, N))
+        rew = jnp.asarray(ctx.rng.normal(0, 2, N).astype(np.float32))
+        done, tmo = _flags(ctx.rng, N)
+        n0 = ctx.rng.integers(0, 7, N)
+        n1 = (n0 + ctx.rng.integers(1, 5, N))  # next policy state differs from the acting one
+        buf = ReplayBuffer(N, env.observation_space, env.action_space, CountState(jnp.array(0, jnp.int32)))
+        buf = fill(buf, (obs, nobs, acts, rew, jnp.asarray(done), jnp.asarray(tmo), jnp.asarray(n0, jnp.int32), jnp.asarray(n1, jnp.int32)))
+        online = CountingQPolicy(env, key=ctx.key(i))
+        target = CountingQPolicy(env, key=ctx.key(10_000 + i))
+        gamma = float(ctx.rng.choice([0.5, 0.9, 0.99, 1.0]))
+
+        def q(pol, n, o):
+            return np.asarray(jax.vmap(lambda nn, oo: pol.q_values(CountState(nn), oo)[1])(jnp.asarray(n, jnp.int32), o), np.float64)
+
+        want, *_ = dqn_ref(q(online, n0, obs), q(online, n1, nobs), q(target, n1, nobs), acts, rew, done, tmo, gamma)
+        got = float(lossfn(online, buf, target, gamma))
+        ctx.case({"N": N, "gamma": gamma, "h": digest(np.asarray(rew), n0, n1, s0, s1)},
+                 nontrivial=bool((done & ~tmo).any() and (done & tmo).any()), cls="dqn-loss-stateful")
+        ctx.monitor("dqn_stateful_loss_evaluations")
+        if abs(got - want) > 1e-5 + 2e-4 * abs(want):
+            alts = {
+                "dqn-greedy-action-from-acting-policy-state": dqn_ref(q(online, n0, obs), q(online, n0, nobs), q(target, n1, nobs), acts, rew, done, tmo, gamma)[0],
+                "dqn-target-value-from-acting-policy-state": dqn_ref(q(online, n0, obs), q(online, n1, nobs), q(target, n0, nobs), acts, rew, done, tmo, gamma)[0],
+                "dqn-taken-action-value-from-next-policy-state": dqn_ref(q(online, n1, obs), q(online, n1, nobs), q(target, n1, nobs), acts, rew, done, tmo, gamma)[0],
+            }
+            key = "dqn-loss-mismatch-stateful-policy"
+            for k, v in alts.items():
+                if abs(got - v) <= 1e-5 + 2e-4 * abs(v):
+                    key = k
+                    break
+            ctx.violation(key, {"got": got, "want": want, "gamma": gamma})
+    ctx.require("dqn_stateful_loss_evaluations", 10)
+
+
 def u_sac_iteration(ctx):
     """The real iteration() must hand the *target* critics of the state to the target computation:
     state built by the real reset(), target critics replaced by nets with other parameters, one real
@@ -599,5 +675,7 @@ def u_sac_iteration(ctx):
 def run_unit(name, ctx):
     if name == "sac_iteration":
         return u_sac_iteration(ctx)
+    if name == "dqn_stateful":
+        return u_dqn_stateful(ctx)
     {"dqn_loss": u_dqn_loss, "dqn_grad": u_dqn_grad, "dqn_train": u_dqn_train, "sac_target": u_sac_target,
      "sac_updates": u_sac_updates}[name](ctx)
